@@ -145,7 +145,8 @@ class Ctx:
             r["rejected_at"] = int(m.group(1))
         if "Error:" in out and r["rejected_at"] is None:
             r["error"] = out[out.index("Error:"):][:3000]
-        if not m and "Model checking completed" not in out and r["rejected_at"] is None and not r["error"]:
+        simulated = "-simulate" in (extra or []) and "Finished in" in out
+        if not m and "Model checking completed" not in out and not simulated and r["rejected_at"] is None and not r["error"]:
             r["error"] = out[-3000:]
         return r
 
